@@ -13,6 +13,7 @@ for q, uf in [("skepticoin.datatypes.Transaction.hash", "tx_id"),
     @DT.contract(q, props=["C01", "C02", "C03", "C04", "C05"])
     def _(c, uf=uf):
         c.summary(uf)
+        c.spec_facts = True
         c.ensures("len(result) == 32")
         c.no_raise()
         c.trust("id of an object is a function of the object, 32 bytes long (defined and checked under C07)")
@@ -22,8 +23,9 @@ for q, uf in [("skepticoin.datatypes.Transaction.hash", "tx_id"),
 def _(c):
     c.summary("enc")
     c.returns(BYTES)
-    c.no_raise()
-    c.trust("serialize() is a function of the object (codec obligations are C07)")
+    c.ensures("G.encodable_any(self)")
+    c.trust("serialize() is a function of the object; it raises (struct.error) when a field does not fit its wire "
+            "format (A-ENC; codec obligations are C07)")
 
 
 @DT.contract("skepticoin.serialization.serialize_list", props=["C05"])
